@@ -242,6 +242,43 @@ func runC05(em *vEmitter, t *testing.T) {
 	emit(nil, true, okSc, "stream/empty")
 	emit(nil, false, okSc, "stream/empty-abandoned")
 
+	// (5b) stalled peers: N connections that have sent nothing, or only a prefix of a request, and neither
+	// finish nor close ("abandoned half-way", any number of concurrent connections).  Every further
+	// connection must still be served: one reply with the callback's verdict, within the usual wait.
+	for _, npeers := range []int{40, 130} {
+		if npeers > 100 && !vThorough() {
+			npeers = 70
+		}
+		var stalled []net.Conn
+		for i := 0; i < npeers; i++ {
+			c, err := net.Dial("unix", sock)
+			if err != nil {
+				break
+			}
+			switch i % 3 {
+			case 1:
+				c.Write([]byte{0, 5, 'a', 'l'})
+			case 2:
+				st := valid()
+				c.Write(st[:len(st)-1])
+			}
+			stalled = append(stalled, c)
+		}
+		time.Sleep(50 * time.Millisecond)
+		for k := 0; k < 4; k++ {
+			sc := okSc
+			if k%2 == 1 {
+				sc = noSc
+			}
+			emit(valid(), k < 2, sc, fmt.Sprintf("stalled-peers/%d", len(stalled)))
+		}
+		emit([]byte{0, 1, 'u', 0}, true, okSc, fmt.Sprintf("stalled-peers/%d", len(stalled)))
+		for _, c := range stalled {
+			c.Close()
+		}
+		time.Sleep(20 * time.Millisecond)
+	}
+
 	// (6) concurrent connections: every connection must get its own answer
 	for round := 0; round < 4; round++ {
 		nconn := []int{2, 8, 32, 64}[round]
